@@ -1,5 +1,5 @@
 import AnsiModel.Pad
-import AnsiModel.Generated.Methods
+import AnsiModel.Generated.Methods.Ljust
 /-
   Property C12, part c — `ljust`, from the source.
 
@@ -11,8 +11,7 @@ import AnsiModel.Generated.Methods
 -/
 namespace C12c
 
-theorem translated : Gen.ljustOk = true ∧ Gen.rjustOk = true ∧ Gen.centerOk = true ∧
-    Gen.shiftSettingsIdxOk = true := by decide
+theorem translated : Gen.ljustOk = true := by decide
 
 private theorem has_iff (f : Fmts) (n : Nat) : Obj.has f (n : Int) = (f.get? n).isSome := by
   simp [Obj.has, Fmts.contains]
